@@ -104,8 +104,8 @@ def judge(op, args, el, el2):
         want = set(f for f in sin if len(f[1]) >= 2)
         if sout != want:
             bad.append(('rf_spec', 'result is not exactly the input functions that contract two or more primitives'))
-        used = set((l, e) for l, terms in fout for e, c in terms)
-        if 'electron_shells' in el2 and prims_of(el2) != used:
+        # a primitive is unused when every column of its shell has a zero for it (in a fused shell a zero in one member's column is not that)
+        if any(all(frac(c[i]) == 0 for c in sh['coefficients']) for sh in el2.get('electron_shells', []) for i in range(len(sh['exponents']))):
             bad.append(('rf_spec', 'an unused primitive is left'))
     elif og and not useg:
         base = [f for f in fin if len(f[1]) >= 2] if rf else fin
@@ -165,12 +165,21 @@ def work(item):
             e = dict(z=z, ecp_same=(ecp_of(el) == ecp_of(el2)), has=('electron_shells' in el))
             if 'electron_shells' in el:
                 e['bad'] = judge(op, args, el, el2)
-                e['in'], e['out'] = shells_of(el), shells_of(el2)
+                e['in'], e['out'] = shells_of(el), copy.deepcopy(shells_of(el2))
                 e['changed'] = e['in'] != e['out']
                 # independent facts for the known-finding matchers
                 e['shared_prims'], e['shared_nonidentical'] = shared_facts(el)
             rec['els'].append(e)
         out['cases'].append(rec)
+        # the caller edits what it was given, in place (removes a primitive, overwrites numbers): the next results - of any call in this
+        # process - must be built from fresh lists
+        for el2 in r['elements'].values():
+            for sh in el2.get('electron_shells', []):
+                for col in sh['coefficients']:
+                    if col:
+                        col.pop()
+                if sh['exponents']:
+                    sh['exponents'][0] = '0.123'
     return out
 
 
